@@ -21,6 +21,8 @@ UNITS = {
               ("0.00000001", "43210.98765432"), ("0.33333333333", "0.7"), ("123456.78901234567", "0.00012345"), ("1", "1")],
     # C08: every lattice overdraft exceeds 1e-10
     "coarse": [("0.0000000002", "1"), ("1", "1"), ("0.5", "10")],
+    # C08: single debits below the 1e-10 tolerance that add up beyond it (one unit: inside the band; two units: must be rejected)
+    "dust": [("0.00000000006", "1000")],
 }
 
 
@@ -88,6 +90,14 @@ def runs_neg(h, c, rnd, tier):
     return runs
 
 
+def runs_neg_windows(h, c, rnd, tier):
+    """from / to windows, with and without -n (balances reflect all history up to the to-date whatever the from-date)"""
+    runs = [full_run(h, False), full_run(h, True)]      # (with -n the full run always completes: the reference behaviour of the trace)
+    for n, r in enumerate(runs_windows(h, c, rnd, tier)[1:]):
+        runs.append(dict(r, neg=bool(n % 2)))
+    return runs
+
+
 # ---- which configurations a history is run under ----------------------------------------------
 def spans_2020(h):
     ys = {day_of(x) >= 365 for x in h}
@@ -100,6 +110,12 @@ def cfg_methods(h, rnd, tier, country="us"):
         scheds += PAIRS if tier == "thorough" else rnd.sample(PAIRS, 3)
         if tier == "thorough":
             scheds += rnd.sample(TRIPLES, 3)
+    years = sorted({2019 + (day_of(x) >= 365) + (day_of(x) >= 731) + (day_of(x) >= 1096) for x in h})
+    if len(years) >= 3:
+        # an entry for every year the history touches (three or four entries), methods drawn at random: a different method family from year to year
+        for _ in range(2 if tier == "quick" else 6):
+            ms = [rnd.choice(METHODS) for _ in years]
+            scheds.append([[1970 if i == 0 else y, m] for i, (y, m) in enumerate(zip(years, ms))])
     return [{"country": country, "ltcg": 0, "sched": s, "neg": False} for s in scheds]
 
 
@@ -137,11 +153,15 @@ def plan(prop, tier):
     if prop == "C01":
         mc = [("A", 3, "valid", "single")] if q else [("A", 3, "valid", "all"), ("C", 3, "valid", "single"), ("D", 2, "valid", "all")]
         bs = [B("A", 3 if q else 4), B("C", 3, sample=1500 if q else None), B("D", 2 if q else 3), B("B", 3, sample=2000 if q else None),
+              B("Y", 4, sample=400 if q else 6000),           # four calendar years: schedules with three and four entries
+              *([B("A", 4, sample=2500)] if q else []),       # (quick: a sample of the depth that thorough takes in full)
               B("A", 12, sim=150 if q else 3000, depth=12), B("Y", 10, sim=100 if q else 2000, depth=10)]
     elif prop == "C02":
         mc = [("A", 3, "any", "single")] if q else [("A", 3, "any", "all"), ("B", 3, "any", "single")]
         bs = [B("A", 3, mode="any", runs=runs_prefixes, configs=cfg_two_methods, sample=4000 if q else None),
               B("A", 3 if q else 4, sample=None if not q else 4000), B("B", 3, mode="any", runs=runs_prefixes, configs=cfg_one_method, sample=1500 if q else None),
+              *([B("A", 4, sample=2500, configs=cfg_two_methods)] if q else []),
+              B("B", 3, runs=runs_windows, configs=cfg_one_method, sample=300 if q else 3000),     # a date filter must not change which lots are consumed
               B("C", 3, configs=cfg_two_methods, sample=2500 if q else None),
               B("D", 2 if q else 3, mode="any", runs=runs_prefixes, configs=cfg_two_methods),
               B("A", 12, sim=150 if q else 3000, depth=12)]
@@ -180,7 +200,9 @@ def plan(prop, tier):
         bs = [B("M", 3, mode="any", runs=runs_neg, configs=cfg_one_method, units="coarse", sample=2500 if q else 40000),
               B("B", 3, mode="any", runs=runs_neg, configs=cfg_one_method, units="coarse", sample=800 if q else None),
               B("M", 3, runs=runs_neg, configs=cfg_one_method, units="coarse", sample=800 if q else 10000),
-              B("M", 9, sim=100 if q else 1500, depth=9, mode="any", runs=runs_neg, configs=cfg_one_method, units="coarse")]
+              B("M", 9, sim=100 if q else 1500, depth=9, mode="any", runs=runs_neg, configs=cfg_one_method, units="coarse"),
+              B("M", 7, sim=150 if q else 2000, depth=7, mode="any", runs=runs_neg, configs=cfg_one_method, units="dust"),
+              B("M", 3, mode="any", runs=runs_neg_windows, configs=cfg_one_method, units="coarse", sample=500 if q else 8000)]     # an overdraft before the from-date still counts
     elif prop == "C09":
         mc = [("A", 3, "valid", "single")] if q else [("A", 3, "valid", "all")]
         bs = [B("A", 3 if q else 4, runs=runs_todates, configs=cfg_methods, sample=2500 if q else 60000),
@@ -298,8 +320,11 @@ def make_jobs(prop, tier, rnd):
     genstats = []
     from concurrent.futures import ThreadPoolExecutor
 
+    # (batches that draw on the same generated space share one TLC run)
+    keys = sorted({(b["slice"], b["maxtx"], b["mode"], b["sim"], b["depth"]) for b in batches}, key=str)
     with ThreadPoolExecutor(max_workers=4) as ex:
-        generated = list(ex.map(lambda b: gen.histories(b["slice"], b["maxtx"], b["mode"], simulate=b["sim"], depth=b["depth"]), batches))
+        outs = dict(zip(keys, ex.map(lambda k: gen.histories(k[0], k[1], k[2], simulate=k[3], depth=k[4]), keys)))
+    generated = [outs[(b["slice"], b["maxtx"], b["mode"], b["sim"], b["depth"])] for b in batches]
     for b, (hs, dist, trans, exhaustive) in zip(batches, generated):
         total = len(hs)
         if b["sim"] and len(hs) > b["sim"]:
